@@ -301,6 +301,19 @@ def ctor_class_axis(ctx):
                                ('UnitQuaternion', sm.UnitQuaternion, 'UQ', [('Quaternion', sm.Quaternion([1.0, 2, 3, 4])), ('SE2', T2o)])):
         for on, o in objs:
             run_or_refuse('C01/%s/from-object/%s' % (cn, on), cn, dict(cls=cn, arg=on, domain='other-class'), kind, lambda C_=C_, o=o: C_(o))
+    # nearly valid arrays handed to the checking constructors (and composed afterwards): refused, or held as a member to 1e-9 - a defect between
+    # 1e-9 and the library's own tolerance must not end up inside a pose object, where X * X, X ** 8 and X / Y carry it on
+    R3n, R2n = ref.rotx(0.3) @ ref.roty(-0.4), ref.rot2(0.3)
+    for cn, C_, kind, good in (('SE3', sm.SE3, 'SE3', ref.rt(R3n, (1.0, 2.0, 3.0))), ('SE2', sm.SE2, 'SE2', ref.rt(R2n, (1.0, 2.0))), ('SO3', sm.SO3, 'SO3', R3n), ('SO2', sm.SO2, 'SO2', R2n)):
+        n_ = good.shape[0]
+        spots = [('corner', (n_ - 1, n_ - 1)), ('bottom0', (n_ - 1, 0)), ('diag0', (0, 0)), ('off01', (0, 1))] if kind[:2] == 'SE' else [('diag0', (0, 0)), ('off01', (0, 1)), ('corner', (n_ - 1, n_ - 1))]
+        for (sn, ij), dl in itertools.product(spots, (4e-6, 1e-7, 5e-9, -3e-8)):
+            B = good.copy()
+            B[ij] += dl
+            for fn_, mk_ in (('bare', lambda B=B: B.copy()), ('[a]', lambda B=B: [B.copy()]), ('[good,a]', lambda B=B, good=good: [good.copy(), B.copy()])):
+                for on, op in (('itself', lambda X: X), ('X*X', lambda X: X * X), ('X**8', lambda X: X ** 8), ('X*X.inv()', lambda X: X * X.inv()), ('interp', lambda X: X.interp(0.5))):
+                    run_or_refuse('C01/%s/nearly-valid/%s/%g/%s/%s' % (cn, sn, dl, fn_, on), cn, dict(cls=cn, spot=sn, defect=dl, form=fn_, op=on, domain='nearly-valid'), kind,
+                                  lambda C_=C_, mk_=mk_, op=op: op(C_(mk_())))
     for fn in ('Tx', 'Ty', 'Tz'):
         for mn, m in (('0', 0.0), ('1e-6', 1e-6), ('g', -1.5), ('1e6', 1e6)):
             run(ctx, 'C01/SE3.%s/%s' % (fn, mn), 'SE3.' + fn, dict(fn=fn, t=mn), 'SE3', getattr(sm.SE3, fn), m, key=(fn, mn), trivial=(m == 0))
@@ -433,6 +446,25 @@ def ctor_norm_interp(ctx):
                         lambda A=A, B=B, s=s: sm.SE3(ref.rt(B, (1.0, 2.0, 3.0))).interp(s, start=sm.SE3(ref.rt(A, (0.5, -1.5, 2.0)))), key=('sec', nm))
                     run(ctx, 'C01/UnitQuaternion.interp/close/' + nm, 'UnitQuaternion.interp', P, 'UQ',
                         lambda A=A, B=B, s=s: sm.UnitQuaternion(ref.r2q_ref(A)).interp(s, dest=sm.UnitQuaternion(ref.r2q_ref(B))), key=('uqc', nm))
+    # poses whose matrices have an integer dtype (SE3(1, 2, 3) with integer literals, as the README writes it, their products and inverses,
+    # hand-typed quarter turns) as the start or the end of an interpolation
+    Bf = sm.SE3(ref.rt(ref.rotx(0.7) @ ref.roty(-0.4), (0.5, -1.5, 2.0)))
+    qz = np.array([[0, -1, 0, 4], [1, 0, 0, 5], [0, 0, 1, 6], [0, 0, 0, 1]])
+    ints3 = [('SE3(1,2,3)', lambda: sm.SE3(1, 2, 3)), ('SE3(1,2,3)*SE3(4,5,6)', lambda: sm.SE3(1, 2, 3) * sm.SE3(4, 5, 6)), ('SE3(1,2,3).inv()', lambda: sm.SE3(1, 2, 3).inv()),
+             ('SE3(int quarter turn)', lambda: sm.SE3(qz.copy())), ('SE3(1,2,3)**2', lambda: sm.SE3(1, 2, 3) ** 2)]
+    for (inn, mk_), (sn, s) in itertools.product(ints3, [('0.3', 0.3), ('0.5', 0.5), ('1', 1.0), ('0', 0.0), ('vec', [0.0, 0.25, 0.5, 1.0])]):
+        nexp = 4 if sn == 'vec' else 1
+        run(ctx, 'C01/SE3.interp/intstart/%s/s=%s' % (inn, sn), 'SE3.interp', dict(start=inn, s=sn, dtype='int'), 'SE3', lambda mk_=mk_, s=s: Bf.interp(s, start=mk_()), key=('iis', inn, sn), expect_n=nexp)
+        run(ctx, 'C01/SE3.interp/intend/%s/s=%s' % (inn, sn), 'SE3.interp', dict(end=inn, s=sn, dtype='int'), 'SE3', lambda mk_=mk_, s=s: mk_().interp(s, start=Bf), key=('iie', inn, sn), expect_n=nexp)
+        run(ctx, 'C01/SE3.interp/intonly/%s/s=%s' % (inn, sn), 'SE3.interp', dict(end=inn, s=sn, dtype='int'), 'SE3', lambda mk_=mk_, s=s: mk_().interp(s), key=('iio', inn, sn), expect_n=nexp)
+        if sn != 'vec':
+            run(ctx, 'C01/base.trinterp/intstart/%s/s=%s' % (inn, sn), 'base.trinterp', dict(start=inn, s=sn, dtype='int'), 'SE3', lambda mk_=mk_, s=s: b.trinterp(mk_().A, Bf.A.copy(), s), key=('tis', inn, sn))
+            run(ctx, 'C01/base.trinterp/intstart3x3/%s/s=%s' % (inn, sn), 'base.trinterp', dict(start=inn, s=sn, dtype='int'), 'SO3', lambda mk_=mk_, s=s: b.trinterp(mk_().A[:3, :3], Bf.A[:3, :3].copy(), s), key=('tis3', inn, sn))
+    ints2 = [('SE2(1,2)', lambda: sm.SE2(1, 2)), ('SE2(int quarter turn)', lambda: sm.SE2(np.array([[0, -1, 4], [1, 0, 5], [0, 0, 1]])))]
+    Bf2 = sm.SE2(0.5, -1.5, 0.7)
+    for (inn, mk_), (sn, s) in itertools.product(ints2, [('0.3', 0.3), ('0.5', 0.5), ('1', 1.0)]):
+        run(ctx, 'C01/SE2.interp/intstart/%s/s=%s' % (inn, sn), 'SE2.interp', dict(start=inn, s=sn, dtype='int'), 'SE2', lambda mk_=mk_, s=s: Bf2.interp(s, start=mk_()), key=('iis2', inn, sn))
+        run(ctx, 'C01/SE2.interp/intend/%s/s=%s' % (inn, sn), 'SE2.interp', dict(end=inn, s=sn, dtype='int'), 'SE2', lambda mk_=mk_, s=s: mk_().interp(s, start=Bf2), key=('iie2', inn, sn))
     for (an, A), (bn, B) in itertools.product(GE3[:5], GE3):
         for sn, s in S:
             nm = '%s/%s/s=%s' % (an, bn, sn)
